@@ -214,7 +214,7 @@ def last_state_vars(out, names):
     """extract the last printed value of simple variables (e.g. l, ti) from a TLC error trace"""
     res = {}
     for n in names:
-        ms = re.findall(r"^/\\ %s = (.*)$" % re.escape(n), out, re.M)
+        ms = re.findall(r"^(?:/\\ )?%s = (.*)$" % re.escape(n), out, re.M)
         if ms:
             res[n] = ms[-1]
     return res
